@@ -594,9 +594,16 @@ def parseExtras (prop : String) (c : ParseCtx) (v : Verdict) : R Verdict := do
     let neverSilent := (s1 ++ c.out).all fun fr => fr.ast.isSome || hasError fr.diags
     let kept := (zipById s1 c.out).all fun (a, b) => diagsIncluded a.diags b.diags
     let names := (s1 ++ c.out).all fun fr => match fr.ast with | some a => Spec.PL.noKeywordNames a | none => true
-    v := v.addSpec "C03" (wfOk && badOk && neverSilent && kept && names)
+    -- the hypothesis of `ParseSound.accepted_derives_run` seen from outside: whenever the model's error
+    -- recovery ran, the syntax stage reports an Error (so "no Error" implies "no recovery")
+    let recoveryReported := c.files.all fun (id, text) =>
+      !(Parse.modelRecovered text ((c.lcs.lookup id).getD [])) ||
+        (match c.stage1.find? (fun fr => fr.id == id) with
+         | some fr => hasError fr.diags
+         | none => true)
+    v := v.addSpec "C03" (wfOk && badOk && neverSilent && kept && names && recoveryReported)
     if !(wfOk && badOk && neverSilent && kept && names) then
-      v := v.addDetail "C03" (Json.mkObj [("wf", wfOk), ("bad", badOk), ("never_silent", neverSilent), ("kept", kept), ("names", names)])
+      v := v.addDetail "C03" (Json.mkObj [("wf", wfOk), ("bad", badOk), ("never_silent", neverSilent), ("kept", kept), ("names", names), ("recovery_reported", recoveryReported)])
     let how := (j.getObjVal? "how").toOption.bind (·.getStr?.toOption) |>.getD verdict
     let kind := if s1.all (fun fr => fr.ast.isSome && fr.diags.isEmpty) then "accepted" else if s1.all (·.ast.isSome) then "recovered" else "rejected"
     v := { v with nontrivial := true, dist := bump (bump v.dist how) kind }
